@@ -69,16 +69,21 @@ impl Property for C05Prop {
             // a union of 3-4 members of one kind whose components partially subsume each other: what
             // the checker derives from it (field, element, result, parameter types ...) is a fold over
             // the members in hash order
-            const COMPONENTS: [&str; 16] = [
+            const COMPONENTS: [&str; 17] = [
+                "any",
                 "int", "float", "string", "[int]", "[int|float]", "[int|float|string]", "[string]", "(int, [int])", "(int, [int|string])",
                 "mut int", "mut (int|float)", "()->int", "()->int|float", "struct{a: [int]}", "struct{a: [int|string]}", "()",
             ];
-            let wrap = tape.below(9);
+            // one kind for all members, or (wrap 9) a kind of its own for every member: the derived
+            // types must then be "none" whatever member the fold meets first
+            let wrap = tape.below(10);
             let n = 3 + tape.below(2);
             let members: Vec<String> = (0..n)
                 .map(|_| {
                     let c = *tape.pick(&COMPONENTS);
+                    let wrap = if wrap == 9 { tape.below(10) } else { wrap };
                     match wrap {
+                        9 => c.to_string(),
                         0 => format!("struct{{a: {c}}}"),
                         1 => format!("struct{{a: {c}, b: int}}"),
                         2 => format!("[{c}]"),
